@@ -1726,6 +1726,9 @@ def Executor_call_method(self, m, st, args, kwargs, node, ev):
         if h:
             return h(self, st, o, args, kwargs, node, ev)
     if isinstance(o, list) and m.name == "append" and len(args) == 1:
+        hook = self.contract.handlers.get("list.append")
+        if hook:
+            hook(self, st, o, args[0], node)  # contract-side obligations on the appended element (list contents are not tracked in loops)
         # Python lists are modelled as immutable values: append rebinds every local that holds this list
         new = o + [args[0]]
         hit = False
